@@ -41,6 +41,13 @@ def lazy(repo):
 LP, IP, NAME = sym.var("LOCAL_PREFIX", "str"), sym.var("FILE_PREFIX", "str"), sym.var("NAME", "str")
 
 
+def _need_prefix(state):
+    if isinstance(state, dict) and "local_symbol_prefix" not in state:
+        from ..report import Defect
+        raise Defect("compiler::Compiler.compile_block", "compile_block hands compile_label a state without 'local_symbol_prefix': the label (and every reference compiled with that state) dies with KeyError, "
+                                                          "or is filed under the enclosing scope's prefix", "statement state lacks the scope prefix")
+
+
 def mk_state(comp, extern_all=None, insn=None):
     return {"local_symbol_prefix": LP, "internal_symbol_prefix": IP, "compiler": comp, "internal_symbols_list": [], "extern_all": extern_all,
             "filename": "a.mac", "insn": insn}
@@ -175,6 +182,7 @@ def rule_R1k(ck):
         seen = []
 
         def cl(I_, fn, a, k):
+            _need_prefix(a[3])
             seen.append(a[3]["local_symbol_prefix"] if isinstance(a[3], dict) else ("not a state mapping", type(a[3]).__name__))
             return None
 
@@ -233,6 +241,7 @@ def rule_R3(ck):
     seen = []
 
     def cl(I_, fn, a, k):
+        _need_prefix(a[3])
         seen.append((a[1].fields["name"], a[3]["local_symbol_prefix"]))
         return None
     I.summaries["compiler::Compiler.compile_label"] = cl
